@@ -98,8 +98,8 @@ theorem render_unknown_key (reg : Registry) (key : Bytes) (s : St) (f : Nat) (hl
     bound of its tree, and that is the result every larger fuel — the session constant included — would give. -/
 theorem driver_fuel_sound (reg : Registry) (key : Bytes) (nodes : List Node) (s : St) (dflt : Nat)
     (hl : reg.lookup key = some nodes) (hp : plainSeq nodes = true) (hd : treeNeed nodes ≤ dflt) :
-    writeKey reg (fuelFor reg key dflt) key s = writeKey reg dflt key s := by
-  have hff : fuelFor reg key dflt = treeNeed nodes := by unfold fuelFor; simp only [hl, hp, if_true]
+    writeKey reg (TermIncl.fuelFor reg key dflt) key s = writeKey reg dflt key s := by
+  have hff : TermIncl.fuelFor reg key dflt = treeNeed nodes := by unfold TermIncl.fuelFor; simp only [hl, hp, if_true]
   rw [hff]
   exact render_terminates reg key nodes s _ _ hl hp (Nat.le_refl _) hd
 
@@ -110,10 +110,6 @@ theorem need_member (l : List Node) (n : Node) (h : n ∈ l) : needNode n < need
 /-! ### With includes -/
 
 open DyntplV.TermIncl
-
-/-- Fuel that suffices for a template of a registry whose templates need at most `R` each: the include limit times `R`
-    on top of the template's own need. -/
-def treeNeedIncl (R : Nat) (nodes : List Node) : Nat := needSeq nodes + 1 + maxIncDepth * R
 
 /-- **`Write(w, key, ctx)` never runs out of fuel when no template of the registry contains a counter loop** — whatever
     the include graph (self-includes and cycles are cut by the include limit), the data, the writer and the depth the
@@ -139,6 +135,21 @@ theorem render_restores_include_depth (reg : Registry) (key : Bytes) (nodes : Li
     (hreg : regLF reg = true) (hl : reg.lookup key = some nodes) (hf : treeNeedIncl (regNeed reg) nodes ≤ f)
     (hs : s.c.err ≠ some .outOfFuel) : (writeKey reg f key s).st.c.incD = s.c.incD :=
   (render_with_includes_never_out_of_fuel reg key nodes s f hreg hl hf hs).2.2
+
+/-- The driver with includes: for a registry without counter loops the rendering is run with the bound of
+    `render_with_includes_never_out_of_fuel`; it does not run out, so (`Fuel.interp_fuel`) every larger fuel returns
+    the same result — and so does the session constant whenever the run with it does not run out either. -/
+theorem driver_fuel_sound_incl (reg : Registry) (key : Bytes) (nodes : List Node) (s : St) (dflt g : Nat)
+    (hreg : regLF reg = true) (hl : reg.lookup key = some nodes) (hs : s.c.err ≠ some .outOfFuel)
+    (hg : TermIncl.fuelFor reg key dflt ≤ g) :
+    writeKey reg g key s = writeKey reg (TermIncl.fuelFor reg key dflt) key s := by
+  apply Fuel.writeKey_fuel_le reg key s _ g hg
+  unfold TermIncl.fuelFor
+  simp only [hl, hreg, if_true]
+  split
+  · rename_i hp
+    exact (render_never_out_of_fuel reg key nodes s _ hl hp (Nat.le_refl _) hs).1
+  · exact (render_with_includes_never_out_of_fuel reg key nodes s _ hreg hl (Nat.le_refl _) hs).1
 
 /-! Non-vacuity: a template that includes ITSELF (after a text) and one that includes it. The bound of that registry is
     computed; the self-include ends with the include-depth error, not with `outOfFuel`. -/
